@@ -171,10 +171,22 @@ func (s *c25stats) note(n int, seed, want uint16, sum uint64) {
 
 type c25run struct {
 	c     *mc.Check
+	nviol atomic.Int64
 	mu    sync.Mutex
 	total c25stats
 	seeds []uint16
 }
+
+// viol funnels violations: after a few dozen the enumeration is abandoned (the verdict is already "violated"; building
+// millions of detail records would only burn the time budget).
+func (r *c25run) viol(sig string, detail map[string]any) {
+	if r.nviol.Add(1) > 64 {
+		return
+	}
+	r.c.Violation(sig, detail)
+}
+
+func (r *c25run) stopped() bool { return r.nviol.Load() > 64 }
 
 func (r *c25run) merge(s *c25stats) {
 	r.mu.Lock()
@@ -225,16 +237,16 @@ func (r *c25run) evalBuf(st *c25stats, buf []byte, pat string, off int, place st
 			st.direct++
 		}
 		if !ok {
-			r.c.Violation(fmt.Sprintf("memory fault: checksum reads outside its buffer [%s, placement=%s]", c25lenClass(len(buf)), place),
+			r.viol(fmt.Sprintf("memory fault: checksum reads outside its buffer [%s, placement=%s]", c25lenClass(len(buf)), place),
 				map[string]any{"len": len(buf), "offset": off, "seed": seed, "pattern": pat, "placement": place})
 			continue
 		}
 		if got != want {
-			r.c.Violation(fmt.Sprintf("Checksum != RFC 1071 sum [%s, content=%s]", c25lenClass(len(buf)), pat),
+			r.viol(fmt.Sprintf("Checksum != RFC 1071 sum [%s, content=%s]", c25lenClass(len(buf)), pat),
 				map[string]any{"len": len(buf), "offset_mod_64": off, "seed": seed, "pattern": pat, "placement": place, "got": got, "want": want, "hasAVX2": hasAVX2})
 		}
 		if got2 != want {
-			r.c.Violation(fmt.Sprintf("checksumAVX2 != RFC 1071 sum [%s, content=%s]", c25lenClass(len(buf)), pat),
+			r.viol(fmt.Sprintf("checksumAVX2 != RFC 1071 sum [%s, content=%s]", c25lenClass(len(buf)), pat),
 				map[string]any{"len": len(buf), "offset_mod_64": off, "seed": seed, "pattern": pat, "placement": place, "got": got2, "want": want})
 		}
 	}
@@ -243,7 +255,7 @@ func (r *c25run) evalBuf(st *c25stats, buf []byte, pat string, off int, place st
 // sweepOffset: placement A — slice starts at data[off], lengths 0..maxLen ascending, surroundings poisoned.
 func (r *c25run) sweepOffset(st *c25stats, a *c25arena, p c25pattern, off, maxLen int, useDirect bool) {
 	d := a.data
-	for n := 0; n <= maxLen; n++ {
+	for n := 0; n <= maxLen && !r.stopped(); n++ {
 		if n > 0 {
 			if p.lastFF >= 0 {
 				d[off+n-1] = 0
@@ -271,7 +283,7 @@ func (r *c25run) sweepOffset(st *c25stats, a *c25arena, p c25pattern, off, maxLe
 func (r *c25run) sweepGuard(st *c25stats, a *c25arena, p c25pattern, maxLen int, useDirect bool) {
 	d := a.data
 	end := len(d)
-	for n := 0; n <= maxLen; n++ {
+	for n := 0; n <= maxLen && !r.stopped(); n++ {
 		for _, start := range []int{end - n, 0} {
 			b := d[start : start+n : start+n]
 			for i := range b {
@@ -326,6 +338,9 @@ func TestVerifC25(t *testing.T) {
 					if i >= n {
 						break
 					}
+					if r.stopped() {
+						break
+					}
 					if c.OutOfTime() {
 						c.Capped("soft time budget")
 						break
@@ -377,10 +392,10 @@ func TestVerifC25(t *testing.T) {
 						st.note(0, s, want, 0)
 						st.direct++
 						if g := Checksum(b, s); g != want {
-							c.Violation("Checksum != RFC 1071 sum [len=0]", map[string]any{"seed": s, "got": g, "want": want})
+							r.viol("Checksum != RFC 1071 sum [len=0]", map[string]any{"seed": s, "got": g, "want": want})
 						}
 						if g := checksumAVX2(b, s); g != want {
-							c.Violation("checksumAVX2 != RFC 1071 sum [len=0]", map[string]any{"seed": s, "got": g, "want": want})
+							r.viol("checksumAVX2 != RFC 1071 sum [len=0]", map[string]any{"seed": s, "got": g, "want": want})
 						}
 					}
 				}
@@ -394,10 +409,10 @@ func TestVerifC25(t *testing.T) {
 					st.note(1, s, want, sum)
 					st.direct++
 					if g := Checksum(b, s); g != want {
-						c.Violation("Checksum != RFC 1071 sum [len 1..7 (scalar tail), content=all-1-byte-buffers]", map[string]any{"byte": b0, "seed": s, "got": g, "want": want})
+						r.viol("Checksum != RFC 1071 sum [len 1..7 (scalar tail), content=all-1-byte-buffers]", map[string]any{"byte": b0, "seed": s, "got": g, "want": want})
 					}
 					if g := checksumAVX2(b, s); g != want {
-						c.Violation("checksumAVX2 != RFC 1071 sum [len 1..7 (scalar tail), content=all-1-byte-buffers]", map[string]any{"byte": b0, "seed": s, "got": g, "want": want})
+						r.viol("checksumAVX2 != RFC 1071 sum [len 1..7 (scalar tail), content=all-1-byte-buffers]", map[string]any{"byte": b0, "seed": s, "got": g, "want": want})
 					}
 				}
 				b[0] = c25Poison
@@ -405,7 +420,7 @@ func TestVerifC25(t *testing.T) {
 			// length 2: bytes (b0, b1) for every b1; seeds: all (thorough) / 256 spread + boundary (quick)
 			b := d[end-2 : end]
 			b[0] = byte(b0)
-			for b1 := 0; b1 < 256; b1++ {
+			for b1 := 0; b1 < 256 && !r.stopped(); b1++ {
 				b[1] = byte(b1)
 				sum := c25refSum(b)
 				for si := 0; si < seeds2; si++ {
@@ -417,10 +432,10 @@ func TestVerifC25(t *testing.T) {
 					st.note(2, s, want, sum)
 					st.direct++
 					if g := Checksum(b, s); g != want {
-						c.Violation("Checksum != RFC 1071 sum [len 1..7 (scalar tail), content=all-2-byte-buffers]", map[string]any{"bytes": []int{b0, b1}, "seed": s, "got": g, "want": want})
+						r.viol("Checksum != RFC 1071 sum [len 1..7 (scalar tail), content=all-2-byte-buffers]", map[string]any{"bytes": []int{b0, b1}, "seed": s, "got": g, "want": want})
 					}
 					if g := checksumAVX2(b, s); g != want {
-						c.Violation("checksumAVX2 != RFC 1071 sum [len 1..7 (scalar tail), content=all-2-byte-buffers]", map[string]any{"bytes": []int{b0, b1}, "seed": s, "got": g, "want": want})
+						r.viol("checksumAVX2 != RFC 1071 sum [len 1..7 (scalar tail), content=all-2-byte-buffers]", map[string]any{"bytes": []int{b0, b1}, "seed": s, "got": g, "want": want})
 					}
 				}
 			}
@@ -429,7 +444,7 @@ func TestVerifC25(t *testing.T) {
 				// length 3: every content x boundary seeds
 				b := d[end-3 : end]
 				b[0] = byte(b0)
-				for b1 := 0; b1 < 256; b1++ {
+				for b1 := 0; b1 < 256 && !r.stopped(); b1++ {
 					b[1] = byte(b1)
 					for b2 := 0; b2 < 256; b2++ {
 						b[2] = byte(b2)
@@ -439,10 +454,10 @@ func TestVerifC25(t *testing.T) {
 							st.note(3, s, want, sum)
 							st.direct++
 							if g := Checksum(b, s); g != want {
-								c.Violation("Checksum != RFC 1071 sum [len 1..7 (scalar tail), content=all-3-byte-buffers]", map[string]any{"bytes": []int{b0, b1, b2}, "seed": s, "got": g, "want": want})
+								r.viol("Checksum != RFC 1071 sum [len 1..7 (scalar tail), content=all-3-byte-buffers]", map[string]any{"bytes": []int{b0, b1, b2}, "seed": s, "got": g, "want": want})
 							}
 							if g := checksumAVX2(b, s); g != want {
-								c.Violation("checksumAVX2 != RFC 1071 sum [len 1..7 (scalar tail), content=all-3-byte-buffers]", map[string]any{"bytes": []int{b0, b1, b2}, "seed": s, "got": g, "want": want})
+								r.viol("checksumAVX2 != RFC 1071 sum [len 1..7 (scalar tail), content=all-3-byte-buffers]", map[string]any{"bytes": []int{b0, b1, b2}, "seed": s, "got": g, "want": want})
 							}
 						}
 					}
@@ -452,7 +467,7 @@ func TestVerifC25(t *testing.T) {
 		})
 		if !ok {
 			tinyFaults.Add(1)
-			c.Violation("memory fault: checksum reads outside its buffer [len<=3, placement=end-at-guard-page]", map[string]any{"first_byte": b0})
+			r.viol("memory fault: checksum reads outside its buffer [len<=3, placement=end-at-guard-page]", map[string]any{"first_byte": b0})
 		}
 	})
 	c.Set("i_len2_seeds_per_content", seeds2)
@@ -473,10 +488,10 @@ func TestVerifC25(t *testing.T) {
 					st.note(n, s, want, sum)
 					st.direct++
 					if g := Checksum(b, s); g != want {
-						c.Violation(fmt.Sprintf("Checksum != RFC 1071 sum [%s, content=const-fill x all seeds]", c25lenClass(n)), map[string]any{"len": n, "fill": fill, "offset": off, "seed": s, "got": g, "want": want})
+						r.viol(fmt.Sprintf("Checksum != RFC 1071 sum [%s, content=const-fill x all seeds]", c25lenClass(n)), map[string]any{"len": n, "fill": fill, "offset": off, "seed": s, "got": g, "want": want})
 					}
 					if g := checksumAVX2(b, s); g != want {
-						c.Violation(fmt.Sprintf("checksumAVX2 != RFC 1071 sum [%s, content=const-fill x all seeds]", c25lenClass(n)), map[string]any{"len": n, "fill": fill, "offset": off, "seed": s, "got": g, "want": want})
+						r.viol(fmt.Sprintf("checksumAVX2 != RFC 1071 sum [%s, content=const-fill x all seeds]", c25lenClass(n)), map[string]any{"len": n, "fill": fill, "offset": off, "seed": s, "got": g, "want": want})
 					}
 				}
 				for i := range b {
@@ -548,6 +563,9 @@ func TestVerifC25(t *testing.T) {
 	c.Set("distinct_checksum_values", distinct)
 	c.Set("by_length_class", map[string]int64{"0": r.total.classes[0], "1..7": r.total.classes[1], "8..31": r.total.classes[2], "32..63": r.total.classes[3], ">=64": r.total.classes[4]})
 	c.Set("hasAVX2", saved)
+	if r.nviol.Load() > 0 || c.OutOfTime() {
+		return // verdict already decided / run capped: the coverage guards below describe complete runs only
+	}
 	for i, n := range r.total.classes {
 		c.Require(n > 0, "length class %d never exercised", i)
 	}
